@@ -9,10 +9,13 @@ THEOREMS = [_NS + t for t in (
     # tier 1: token codecs, every value of the type, any print options
     "int_roundtrip", "int64_roundtrip", "char_roundtrip", "string_roundtrip", "symbol_roundtrip",
     "blob_roundtrip", "midi_roundtrip", "color_roundtrip", "keyword_roundtrip",
+    "float_lossless_roundtrip", "double_lossless_roundtrip", "timetag_roundtrip",
     # tier 2: uncompressed argument lists and whole messages
     "list_roundtrip", "message_roundtrip",
     # the proved part of the full statement (print_scan_roundtrip_statement stays a def)
-    "print_scan_roundtrip_partial")]
+    "print_scan_roundtrip_partial",
+    # the model is written over the constants/tables extracted from the source on every run
+    "tables_agree", "escape_tables_inverse")]
 HARNESS = {"src": ["pretty.cpp"]}
 RULE = ("each case: print options (lossless, precision 0..9, line length 10..120, compression on/off) and an argument "
         "list of 0..12 top-level values per type or mixed (i h c f d s S b m r t T F N I; finite floats only in lossless "
@@ -23,10 +26,12 @@ RULE = ("each case: print options (lossless, precision 0..9, line length 10..120
         "localtime/mktime); a case is non-trivial when it has at least two argument tokens; distinct = distinct op line")
 ASSUMPTIONS = [
     "the fix patches fixes/C10-01 … C10-14 (and C16-*.patch for rtosc_arg_vals_eq on repeated arrays) are applied to the tree",
-    "proved (Lean, all values, no bound): tiers 1-2 for the types i h c s S b m r T F N I and the time tag 'immediately', "
-    "for lists/messages the printer does not compress (compression off, or no five same-typed values in a row)",
-    "NOT proved, covered by correspondence + round-trip oracle only: floats and doubles, time tags with a date, arrays, "
-    "compressed runs (tier 3), mixed lists containing them",
+    "proved (Lean, all values, no bound): tier 1 for every value of the types i h c f d (lossless, finite) s S b m r T F N I "
+    "and for time tags 'immediately' or without second fractions; tier 2 (lists and whole messages, any line length, "
+    "precision 0..9) for all of these except midnight time tags, provided the printer does not compress "
+    "(compression off, or no five same-typed values in a row)",
+    "NOT proved, covered by correspondence + round-trip oracle only: time tags with second fractions, arrays, "
+    "compressed runs (tier 3), midnight time tags inside lists",
     "TZ=UTC, LC_ALL=C; separator \" \"; the output buffer is large enough (the bs bookkeeping only feeds asserts compiled out with NDEBUG)",
     "the scanner's string buffer is abstracted: string/blob cells carry their bytes",
 ]
@@ -39,11 +44,82 @@ TRUSTED = [
     "C16's cell type and comparison model RtoscModel/ArgVal/{Val,Cmp}.lean (imported)",
 ]
 LEVEL_TEXT = ("Lean theorems: print→check→scan is the identity, with printed length = returned length and the whole text "
-              "consumed, for every value of the types i h c s S b m r T F N I / 'immediately' (tier 1) and for all uncompressed "
-              "lists and messages of them at any line length (tier 2); the full statement incl. floats, dates, arrays and "
-              "compressed ranges is checked by exact model/implementation correspondence and by the round-trip oracle "
-              "evaluated on the implementation, not proved")
-LEVEL_NOTE = "partial: tier 3 (ranges, arrays) and float/date tokens inside lists are correspondence + oracle only"
+              "consumed, for every value of the types i h c f d s S b m r T F N I and time tags without fraction (tier 1; floats "
+              "and doubles bit-exact in lossless mode via exact %a / strtod models) and for all uncompressed lists and "
+              "messages of them at any line length (tier 2); the full statement incl. time fractions, arrays and compressed "
+              "ranges is checked by exact model/implementation correspondence and by the round-trip oracle evaluated on "
+              "the implementation, not proved")
+LEVEL_NOTE = "partial: tier 3 (ranges, arrays) and time tags with second fractions are correspondence + oracle only"
+
+
+
+# ------------------------------------------------------------------------------------
+# translator: constants and tables of pretty-format.c -> RtoscModel/Generated/PrettyConst.lean
+# ------------------------------------------------------------------------------------
+def _cchar(tok):
+    """value of a C character literal body such as  a  \\n  \\'  \\\\  \\0 """
+    esc = {"a": 7, "b": 8, "t": 9, "n": 10, "v": 11, "f": 12, "r": 13, "\\": 92, "'": 39, '"': 34, "0": 0}
+    if tok.startswith("\\"):
+        return esc[tok[1:]]
+    return ord(tok)
+
+
+def translate_pretty_tables():
+    import os
+    import re
+    import vlib
+    src = open(os.path.join(vlib.REPO, "src/cpp/pretty-format.c")).read()
+    m = re.search(r"const size_t range_min = (\d+);", src)
+    range_min = int(m.group(1))
+    m = re.search(r"rtosc_print_options\) \{ (true|false), (\d+), \"([^\"]*)\", (\d+), (true|false)\}", src)
+    defopt = (m.group(1), int(m.group(2)), m.group(3), int(m.group(4)), m.group(5))
+
+    def body(name):
+        i = src.index(name + "(")
+        i = src.index("{", i)
+        j = src.index("\n}\n", i)
+        return src[i:j]
+    esc = re.findall(r"case '((?:\\.|[^\\']))': return '((?:\\.|[^\\']))';", body("static int as_escaped_char"))
+    unesc = re.findall(r"case '((?:\\.|[^\\']))': return '((?:\\.|[^\\']))';", body("static char get_escaped_char"))
+    if len(esc) < 8 or len(unesc) < 8:
+        raise ValueError("escape tables not found")
+    fb = body("static const char* scanf_fmtstr")
+    tries = re.findall(r"try_fmt\(src, exp, ([^,]+(?:\"[^\"]*\")?[^,]*), _type, '(.)'\)", fb)
+    names = []
+    for f, t in tries:
+        f = f.replace(" ", "")
+        key = {'"%*"PRIi64"h%n"': "h", '"%*d%n"': "d", '"%*"PRIi32"i%n"': "ii", "i32": "x", '"%*lfd%n"': "lfd",
+               '"%*ff%n"': "ff", '"%*f%n"': "f"}.get(f)
+        if key is None:
+            raise ValueError("unknown numeric format " + f)
+        names.append((key, t))
+    m = re.search(r"words\[\] = \{([^}]*)\}", src)
+    words = re.findall(r'"([A-Za-z]+)"', m.group(1)) if m else []
+    out = ["/- GENERATED by tools/props/c10.py (translate_pretty_tables) from src/cpp/pretty-format.c — do not edit -/",
+           "namespace Rtosc.Pretty.Generated", "",
+           "def rangeMin : Nat := %d" % range_min,
+           "/-- default_print_options: lossless, precision, line length, compress_ranges (separator %r) -/" % defopt[2],
+           "def defaultOpt : Bool × Nat × Int × Bool := (%s, %d, %d, %s)" % (defopt[0], defopt[1], defopt[3], defopt[4]),
+           "/-- as_escaped_char: (character, letter of its escape sequence), common to chars and strings -/",
+           "def escapeTable : List (UInt8 × UInt8) := [%s]" % ", ".join("(%d, %d)" % (_cchar(a), _cchar(b)) for a, b in esc),
+           "/-- get_escaped_char: (letter, character) -/",
+           "def unescapeTable : List (UInt8 × UInt8) := [%s]" % ", ".join("(%d, %d)" % (_cchar(a), _cchar(b)) for a, b in unesc),
+           "/-- scanf_fmtstr: the formats in the order they are tried, with the type letter they stand for -/",
+           "def tryOrder : List (String × UInt8) := [%s]" % ", ".join('("%s", %d)' % (k, ord(t)) for k, t in names),
+           "/-- is_reserved_word -/",
+           "def reservedWords : List String := [%s]" % ", ".join('"%s"' % w for w in words),
+           "", "end Rtosc.Pretty.Generated", ""]
+    text = "\n".join(out)
+    dst = os.path.join(vlib.LEAN, "RtoscModel", "Generated", "PrettyConst.lean")
+    old = open(dst).read() if os.path.exists(dst) else None
+    if old != text:
+        with open(dst, "w") as f:
+            f.write(text)
+        return "PrettyConst.lean regenerated (changed)"
+    return "PrettyConst.lean regenerated (unchanged)"
+
+
+TRANSLATORS = [translate_pretty_tables]
 
 ESCAPES = [7, 8, 9, 10, 11, 12, 13]
 PRINTABLE = list(range(32, 127))
@@ -551,7 +627,9 @@ def g_text(rng):
             toks.append(t_array(rng))
         else:
             toks.append("%dx%s" % (rng.randint(1, 9), rng.choice([t_int(rng), "'a'", "nil", '"s"', "[1 2]", "1.5", "abc"])))
-    out = rng.choice(["", "", " ", "% c\n"])
+    # no white space or comment in front of the first argument: rtosc_count_printed_arg_vals skips
+    # it, rtosc_scan_arg_vals does not (outside C10's statement; noted for C11)
+    out = ""
     for k, t in enumerate(toks):
         out += t
         if k + 1 < len(toks):
